@@ -564,20 +564,33 @@ impl Database {
         let (value, version) = {
             let mut db = self.map.write().unwrap();
             // A removed key is kept as a tombstone holding "<Empty>": it counts as absent (0)
-            let current_text = match db.get(&key.to_string()) {
+            let (current_text, old_value) = match db.get(&key.to_string()) {
                 Some(old) => {
                     if old.state == ValueStatus::Deleted {
-                        String::from("0")
+                        (String::from("0"), Some(old.clone()))
                     } else {
-                        old.to_string()
+                        (old.to_string(), Some(old.clone()))
                     }
                 }
-                None => String::from("0"),
+                None => (String::from("0"), None),
             };
             match i32::from_str_radix(&current_text, 10) {
                 Ok(current) => {
                     let next = (current + inc).to_string();
-                    db.insert(key.clone(), Value::from(next.clone()));
+                    let new_value = match old_value {
+                        // An existing key keeps growing its version and keeps what the
+                        // snapshot needs to find it on disk
+                        Some(old) => Value {
+                            value: next.clone(),
+                            version: old.version.saturating_add(1),
+                            opp_id: Databases::next_op_log_id(),
+                            state: old.get_update_value_sate(),
+                            value_disk_addr: old.value_disk_addr,
+                            key_disk_addr: old.key_disk_addr,
+                        },
+                        None => Value::from(next.clone()),
+                    };
+                    db.insert(key.clone(), new_value);
                     (next, -1)
                 }
                 _ => {
